@@ -1,6 +1,7 @@
 import LitexProofs.Soc.Finalize
 import LitexProofs.Soc.LocInv
 import LitexProofs.Soc.CmInv
+import LitexProofs.Soc.CsrBanks
 import LitexProofs.Soc.CmConstraints
 /-
   C13 — SoC resource allocation never hands out overlapping or out-of-range resources.
@@ -364,6 +365,78 @@ theorem handlers_start_empty (dwid awid al pg nIrqs : Nat) (h : LocH ν) :
     · cases hh
     · injection hh with hh
       exact ⟨hh.symm, by omega⟩
+
+
+/-! ## CSR banks at `SoC.finalize` -/
+
+/-- Whatever CSR handler a design has built up (any `n_locs`, reserved pages, any history of location requests),
+    whatever banks it contains (any register widths, any CSR data width, any paging): if the finalize step
+    succeeds, every bank has its own page `0 ≤ k < n_locs`, its `simpleCount` 32-bit aligned locations fit in
+    that page (`4·simpleCount ≤ paging`), its byte range lies inside the page, and the byte ranges of two
+    different banks never intersect. -/
+theorem bank_fits_page_after_finalize (n : Nat) (enabled : Bool) (ops : List (LocOp ν)) (paging dataWidth base : Nat)
+    (banks : List (Bank ν)) (h' : LocH ν) (l : List (Bank ν × Int))
+    (hfin : (({ nLocs := n, enabled := enabled } : LocH ν).run ops).finalizeBanks paging dataWidth banks = .ok (h', l)) :
+    l.map (·.1) = banks ∧
+    (∀ p ∈ l, 0 ≤ p.2 ∧ p.2 < (n : Int) ∧ 4 * simpleCount dataWidth p.1.widths ≤ paging ∧
+      ∀ x, bankRange base paging dataWidth p x →
+        (base : Int) + paging * p.2 ≤ x ∧ x < (base : Int) + paging * (p.2 + 1)) ∧
+    (∀ p ∈ l, ∀ q ∈ l, p.1.name ≠ q.1.name → ∀ x, ¬ (bankRange base paging dataWidth p x ∧ bankRange base paging dataWidth q x)) := by
+  obtain ⟨hi0, hn0⟩ := LocH.run_inv ops (LocH.inv_empty (ν := ν) n enabled)
+  unfold LocH.finalizeBanks at hfin
+  split at hfin
+  · cases hfin
+  · rename_i h2 l2 hscan
+    split at hfin
+    · cases hfin
+    · rename_i hbig
+      injection hfin with hfin
+      injection hfin with e1 e2
+      subst e1 e2
+      obtain ⟨hi, hn, _, hmem, hmap⟩ := LocH.scanBanks_spec banks hi0 hscan
+      have hfit : ∀ p ∈ l2, 4 * simpleCount dataWidth p.1.widths ≤ paging := by
+        intro p hp
+        have hall : ∀ (x : Bank ν) (k : Int), (x, k) ∈ l2 → simpleCount dataWidth x.widths ≤ paging / 4 := by
+          simpa using hbig
+        have hle : simpleCount dataWidth p.1.widths ≤ paging / 4 := hall p.1 p.2 hp
+        have := Nat.div_mul_le_self paging 4
+        omega
+      have hinpage : ∀ p ∈ l2, ∀ x, bankRange base paging dataWidth p x →
+          (base : Int) + paging * p.2 ≤ x ∧ x < (base : Int) + paging * (p.2 + 1) := by
+        intro p hp x hx
+        have hf := hfit p hp
+        unfold bankRange at hx
+        refine ⟨hx.1, ?_⟩
+        have : (4 : Int) * (simpleCount dataWidth p.1.widths : Int) ≤ (paging : Int) := by exact_mod_cast hf
+        rw [Int.mul_add, Int.mul_one]
+        omega
+      refine ⟨hmap, ?_, ?_⟩
+      · intro p hp
+        have hr := hi.in_range _ (hmem p hp)
+        rw [hn, hn0] at hr
+        exact ⟨hr.1, hr.2, hfit p hp, hinpage p hp⟩
+      · intro p hp q hq hne x ⟨hx, hy⟩
+        have hk : p.2 ≠ q.2 := LocH.loc_ne_of_name_ne hi (hmem p hp) (hmem q hq) hne
+        obtain ⟨a1, a2⟩ := hinpage p hp x hx
+        obtain ⟨b1, b2⟩ := hinpage q hq x hy
+        have hpg : (0 : Int) ≤ (paging : Int) := Int.natCast_nonneg _
+        rcases Int.lt_or_gt_of_ne hk with hlt | hgt
+        · have : (paging : Int) * (p.2 + 1) ≤ paging * q.2 := Int.mul_le_mul_of_nonneg_left (by omega) hpg
+          omega
+        · have : (paging : Int) * (q.2 + 1) ≤ paging * p.2 := Int.mul_le_mul_of_nonneg_left (by omega) hpg
+          omega
+
+/-- Non-vacuity and the seeded-change scenario: 8-bit CSR bus, paging 0x400 (256 locations per page).  64
+    32-bit registers (256 simple CSRs) are accepted; 65 of them (260 simple CSRs) are refused although
+    `paging / (data_width/8) = 1024` would let them through; on a 32-bit bus 256 registers pass and 257 fail. -/
+example :
+    (match ({ nLocs := 64 } : LocH Nat).finalizeBanks 0x400 8 [⟨0, List.replicate 64 32⟩, ⟨1, [32, 8]⟩] with
+     | .ok (_, l) => l.map (fun p => (p.1.name, p.2, simpleCount 8 p.1.widths)) | .error _ => [])
+      = [(0, 0, 256), (1, 1, 5)] ∧
+    (({ nLocs := 64 } : LocH Nat).finalizeBanks 0x400 8 [⟨0, List.replicate 65 32⟩, ⟨1, [32, 8]⟩]).toOption = none ∧
+    (({ nLocs := 64 } : LocH Nat).finalizeBanks 0x400 32 [⟨0, List.replicate 256 32⟩]).toOption.isSome = true ∧
+    (({ nLocs := 64 } : LocH Nat).finalizeBanks 0x400 32 [⟨0, List.replicate 257 32⟩]).toOption = none := by
+  decide +kernel
 
 /-! ## Platform IO resources -/
 
